@@ -28,8 +28,18 @@ typedef unsigned __int128 u128; typedef __int128 s128;
 #ifndef IR_PAGED
 u64 IR_MEM[IR_MEM_WORDS];
 #endif
+#ifdef IR_NATIVE_THREADS
+__CPROVER_thread_local int ir_cur;     /* cbmc native threads: the model thread id is per thread */
+#else
 int ir_cur;
+#endif
 u64 ir_sp[IR_NT];   /* per model thread: next free byte of its stack area (frames are allocated per activation) */
+#ifdef IR_NATIVE_THREADS
+__CPROVER_thread_local u64 ir_sp_tl;    /* cbmc native threads: a thread-local stack pointer (a shared one would make every call a shared-memory event) */
+#define IR_SP ir_sp_tl
+#else
+#define IR_SP ir_sp[ir_cur]
+#endif
 /* sequentialised threads: remaining visible operations of the running slice, yield flag, blocked flags */
 unsigned ir_budget; _Bool ir_yielded; _Bool ir_blocked[IR_NT];
 #ifndef IR_STEP
